@@ -15,6 +15,8 @@ CLAIMED = {
             "deterministic simulation, seeded history sampling vs. BEP44 state machine"),
     "C05": ("§4 C05", "Seeded exploration: server- and client-mode victims in a live network receive a barrage from a structured hostile-datagram catalogue (18 message kinds x every field x 18 type/length confusions, walked across runs), grammar-random and byte-level input, corruption of real traffic, and Byzantine replies to their own in-flight requests; verdict = no actor panic, no API-future panic, process alive, ping and local calls work afterwards.",
             "deterministic simulation with injected/corrupted/Byzantine datagram faults, liveness + panic oracle"),
+    "C08": ("§4 C08", "Seeded exploration of ack/error/silence plans over 1..12 scripted storers plus real servers under loss, duplication and late replies, and >255-replica puts through extra_nodes with exactly 255/256/257/511/512/513 ackers; Ok/CasFailed/NotMostRecent/query-error verdict and the token-bearing-targets rule recomputed from the datagram trace; real ackers read back.",
+            "deterministic simulation with loss/duplication/delay faults and scripted storers, trace-recomputed verdict"),
     "C09": ("§4 C09", "Seeded exploration with a spoofing adversary that sees every transaction id: responses/errors from wrong port, adjacent IP or unrelated address, with live or guessed tids, before/between/after the genuine reply, plus duplication of genuine replies; marker oracle (no contact to marker nodes, no marker in routing tables or address votes, no spoofed value or ack counted) and genuine-reply-still-accepted / consumed-once oracle.",
             "deterministic simulation with spoofed-datagram injection and duplication faults, marker oracle"),
     "C15": ("§4 C15", "Seeded exploration of token timelines (ages 0..25 min, rotations at arbitrary instants of a skewed virtual clock, close/shared/unrelated IPs, byte-level token mutations, tokens of another server) against a timeline model: must-accept <= 5 min, must-reject > 10 min + 2*gap, wrong IP / foreign / mutated -> 203.",
@@ -27,7 +29,7 @@ NOT_APPLICABLE = {
 }
 
 # properties designed in DESIGN.md whose checks are not built yet are listed as not claimed (reason says so)
-PENDING = ["C01", "C06", "C07", "C08", "C11", "C12", "C13", "C14", "C17", "C18", "C20"]
+PENDING = ["C01", "C06", "C07", "C11", "C12", "C13", "C14", "C17", "C18", "C20"]
 
 checks = []
 for pid, (ref, text, tech) in sorted(CLAIMED.items()):
